@@ -467,6 +467,14 @@ def gen_arp_nd_echo(runner, tier, seed):
             fr.append(eth(m, CMAC, 0x86DD, ipv6(C6, solicited_node(S6), 58, nd_ns(C6, solicited_node(S6), S6, b"\x01\x01" + mac(CMAC)), hlim=255)))
             fr.append(eth(m, CMAC, 0x0800, ipv4(C4, S4, 1, icmp_echo(1, 2, b"m"))))
             fr.append(eth(m, CMAC, 0x0806, arp(1, CMAC, C4, "00:00:00:00:00:00", S4)))
+        # requests followed by Ethernet padding (frames shorter than 60 bytes are padded on the wire), with IPv4 options
+        for n in (0, 1, 5, 17, 18):
+            d = bytes(range(65, 65 + n))
+            for pad in (b"\0" * (46 - 28 - n) if n < 18 else b"\0\0", b"\xaa" * 7):
+                fr.append(eth(SMAC, CMAC, 0x0800, ipv4(C4, S4, 1, icmp_echo(n, 7, d))) + pad)
+                fr.append(eth(SMAC, CMAC, 0x86DD, ipv6(C6, S6, 58, icmp6(C6, S6, 128, 0, struct.pack(">HH", n, 7) + d))) + pad)
+                fr.append(eth(SMAC, CMAC, 0x0800, ipv4(C4, S4, 1, icmp_echo(n, 8, d), ihl=6, options=b"\x01\x01\x01\x00")) + pad)
+            fr.append(eth(b"\xff" * 6, CMAC, 0x0806, arp(1, CMAC, C4, "00:00:00:00:00:00", S4, trailer=b"\0" * 18)))
         # duplicate address detection: the solicitation comes from the unspecified address
         for dst in (solicited_node(S6), S6):
             fr.append(eth(mcast_mac6(S6) if dst != S6 else SMAC, CMAC, 0x86DD, ipv6("::", dst, 58, nd_ns("::", dst, S6), hlim=255)))
